@@ -1,26 +1,33 @@
 import Gen.MockData
 import GeffProofs.MockData
-/-! Helper lemmas: the source-translated mock-data generators `Gen.MockData.*` (translator T24) against
-the hand-written model `Geff.MockData.*`.
+/-! Helper lemmas: the source-translated mock-data generators `Gen.MockData.*` (translator T24) equal the
+hand-written model `Geff.MockData.*`.
 
-* `addAxis_eq`: the nested `_add_axis` as written = the model's `addAxis` step (property, axis entry,
-  metadata entry) for every node count, name, unit, dtype and value pattern;
-* `mock_eq`: `create_mock_geff` as written = "run `create_dummy_in_mem_geff` as written on the SAME
-  thirteen arguments, write the result once into a fresh store, return both";
-* the four wrappers as written = `create_mock_geff` as written on the documented constants;
-* `genParams` / `embed`: how a model parameter record is passed to the generated functions and how a
-  model result is read as a generated one. -/
+T24 emits every top-level `if` paragraph of `create_dummy_in_mem_geff` as a definition of its own
+(`blockIncludeT … blockIncludeMissing`: the variables it reads are parameters, those it changes are
+returned) and the function itself as the chain of these paragraphs.  Each paragraph is proved equal to the
+corresponding step of the model for ALL arguments:
+* `blockT_eq … blockX_eq` — the four axis paragraphs = `axStep` (the model's `addAxis` when requested);
+* `blockEdges_eq` — the `(0, 2)` reshape;
+* `blockXn_eq`, `blockXe_eq` — the extra-property paragraphs = the model's `extras`; the generated `for`
+  loop is characterised by the hand-written one-step specification `stepSpec` (= the model's `stepOut`
+  + insertion) and an induction over the items (`forIn_extras`); the generated loop body is consumed by
+  unification (`show (forIn … _ >>= _) = _; rw [forIn_extras]`);
+* `blockVl_eq` — the var-length paragraph = `withVarLength` incl. the D15 boundary; the generated loop
+  over `range(num_nodes)` is characterised by the invariant `vlState n k` (`forIn_cubes`, `vl_step`);
+* `blockMs_eq` — the sparse paragraph = `withSparse` on both sides (`everyOther_eq`, `mask_eq`);
+and `dummy_eq` composes them: `create_dummy_in_mem_geff` as written = the model, for every parameter
+record.  `mock_eq` and the wrapper lemmas do the same for the forwarding layer. -/
 namespace GeffProofs.MockDataGen
 open Geff.MockData Geff.PyDoMock
+
+theorem bind_pure' {α : Type} (x : Outcome α) : (x >>= fun t => pure t) = x := by cases x <;> rfl
 
 @[simp] theorem ok_bind {α β : Type} (v : α) (f : α → Outcome β) : (Outcome.ok v >>= f) = f v := rfl
 @[simp] theorem ve_bind {α β : Type} (f : α → Outcome β) : (Outcome.valueError >>= f) = .valueError := rfl
 @[simp] theorem other_bind {α β : Type} (n : String) (f : α → Outcome β) : (Outcome.other n >>= f) = .other n := rfl
 @[simp] theorem pure_eq {α : Type} (v : α) : (pure v : Outcome α) = .ok v := rfl
 
-theorem bind_pure' {α : Type} (x : Outcome α) : (x >>= fun t => pure t) = x := by cases x <;> rfl
-
-/-- `d[k] = v; d[k]` -/
 theorem dictGet_dictSet {β : Type} (d : Dict β) (k : String) (v : β) : dictGet? (dictSet d k v) k = some v := by
   unfold dictGet? dictSet
   split
@@ -40,8 +47,6 @@ theorem dictGet_dictSet {β : Type} (d : Dict β) (k : String) (v : β) : dictGe
       rw [List.find?_eq_none]; intro x hx hk; exact h (List.any_eq_true.2 ⟨x, hx, hk⟩)
     simp [this]
 
-/-- **`_add_axis` as written** stores the coordinate column under the axis name, appends the axis
-(with bounds iff there is a node) and returns the metadata entry — the model's `addAxis` step. -/
 theorem addAxis_eq (ok : Bool) (n : Nat) (props : Dict PropOut) (axes : List AxisOut) (name ty unit d : String)
     (v : Values) :
     Gen.MockData.addAxis ok n props axes name ty unit ⟨npName d, n, .vals v⟩ =
@@ -55,8 +60,6 @@ theorem addAxis_eq (ok : Bool) (n : Nat) (props : Dict PropOut) (axes : List Axi
   · have h0 : n = 0 := by omega
     simp [mkPropDict, h0, dictGetItem, dictGet_dictSet, createPropsMetadata, axisTriple, mkAxis]
 
-/-- the time column `[(i * 5 // num_nodes) + 1 for i in range(num_nodes)]` as written never divides
-by zero and is the model's `tValues` -/
 theorem compM_ok {α β : Type} (f : α → Outcome β) (g : α → β) (l : List α) (h : ∀ a ∈ l, f a = .ok (g a)) :
     compM f l = .ok (l.map g) := by
   induction l with
@@ -75,10 +78,319 @@ theorem tColumn_eq (n : Nat) :
 theorem tColumn_ints (n : Nat) : natInts ((List.range n).map (fun i => i * 5 / n + 1)) = tValues n := by
   simp [natInts, tValues, Int.natCast_ediv]
 
-/-- how a model parameter record is handed to the generated `create_dummy_in_mem_geff` / `create_mock_geff` -/
+/-- one `if include_*:` paragraph in the model's words -/
+def axStep (n : Nat) (c : Bool) (name type unit dtype : String) (values : Values) (s : Acc × List AxisOut) :
+    Acc × List AxisOut :=
+  if c then Geff.MockData.addAxis n s name type unit dtype values else s
+
+def axOut (s : Acc × List AxisOut) : Dict PropOut × List AxisOut × List PropMeta := (s.1.props, s.2, s.1.metas)
+
+theorem blockT_eq (ok : Bool) (dts : AxisDtypes) (n : Nat) (c : Bool) (s : Acc × List AxisOut) :
+    Gen.MockData.blockIncludeT ok dts n c s.1.props s.1.metas s.2 =
+      .ok (axOut (axStep n c "t" "time" "second" dts.time (.ints (tValues n)) s)) := by
+  unfold Gen.MockData.blockIncludeT
+  cases c
+  · simp [axStep, axOut]
+  · rw [tColumn_eq]
+    simp [axStep, axOut, npArrayInts, tColumn_ints, addAxis_eq, Geff.MockData.addAxis, Acc.push, axisTriple]
+
+theorem blockZ_eq (ok : Bool) (dts : AxisDtypes) (n : Nat) (c : Bool) (s : Acc × List AxisOut) :
+    Gen.MockData.blockIncludeZ ok dts n c s.1.props s.1.metas s.2 =
+      .ok (axOut (axStep n c "z" "space" "nanometer" dts.position (.linspace "0.5" "0.1" n) s)) := by
+  unfold Gen.MockData.blockIncludeZ
+  cases c
+  · simp [axStep, axOut]
+  · simp [axStep, axOut, npLinspace, addAxis_eq, Geff.MockData.addAxis, Acc.push, axisTriple]
+
+theorem blockY_eq (ok : Bool) (dts : AxisDtypes) (n : Nat) (c : Bool) (s : Acc × List AxisOut) :
+    Gen.MockData.blockIncludeY ok dts n c s.1.props s.1.metas s.2 =
+      .ok (axOut (axStep n c "y" "space" "nanometer" dts.position (.linspace "100.0" "500.0" n) s)) := by
+  unfold Gen.MockData.blockIncludeY
+  cases c
+  · simp [axStep, axOut]
+  · simp [axStep, axOut, npLinspace, addAxis_eq, Geff.MockData.addAxis, Acc.push, axisTriple]
+
+theorem blockX_eq (ok : Bool) (dts : AxisDtypes) (n : Nat) (c : Bool) (s : Acc × List AxisOut) :
+    Gen.MockData.blockIncludeX ok dts n c s.1.props s.1.metas s.2 =
+      .ok (axOut (axStep n c "x" "space" "nanometer" dts.position (.linspace "1.0" "0.1" n) s)) := by
+  unfold Gen.MockData.blockIncludeX
+  cases c
+  · simp [axStep, axOut]
+  · simp [axStep, axOut, npLinspace, addAxis_eq, Geff.MockData.addAxis, Acc.push, axisTriple]
+
+theorem blockEdges_eq (ok : Bool) (es : List (Int × Int)) (d : String) :
+    Gen.MockData.blockEdges ok (npArrayPairs es d) = .ok ⟨npName d, es, [es.length, 2]⟩ := by
+  unfold Gen.MockData.blockEdges
+  cases es <;> simp [npArrayPairs, EdgeArr.shape0, EdgeArr.reshape02]
+
+
+/-! ### the var-length paragraph -/
+def vlState (n k : Nat) : Arr := ⟨"object", n, .obj (cubeSlots k ++ List.replicate (n - k) none)⟩
+
+theorem cubeSlots_succ (k : Nat) :
+    cubeSlots (k + 1) = cubeSlots k ++ [some { shape := [k, k, k], dtype := "uint64", fill := (k : Int) }] := by
+  simp [cubeSlots, List.range_succ]
+
+theorem cubeSlots_length (k : Nat) : (cubeSlots k).length = k := by simp [cubeSlots]
+
+theorem forIn_cubes (n : Nat) (body : Nat → Arr → Outcome (ForInStep Arr))
+    (hstep : ∀ k, k < n → body k (vlState n k) = .ok (.yield (vlState n (k + 1)))) :
+    ∀ m k, k + m = n → forIn (List.range' k m) (vlState n k) body = .ok (vlState n n) := by
+  intro m
+  induction m with
+  | zero => intro k hk; have : k = n := by omega
+            subst this; simp
+  | succ m ih =>
+    intro k hk
+    rw [List.range'_succ, List.forIn_cons, hstep k (by omega)]
+    simp only [ok_bind]
+    exact ih (k + 1) (by omega)
+
+theorem vl_step (n k : Nat) (h : k < n) :
+    setItemObj (vlState n k) k (Elem.times (npOnes [k, k, k] "uint64") k) = .ok (vlState n (k + 1)) := by
+  have hn : n - k = (n - (k + 1)) + 1 := by omega
+  have hnp : npName "uint64" = "uint64" := by decide
+  simp only [setItemObj, vlState]
+  rw [hn, List.replicate_succ]
+  have hlen : k < (cubeSlots k ++ none :: List.replicate (n - (k + 1)) none).length := by
+    simp [cubeSlots_length]
+  simp only [hlen, ↓reduceIte]
+  rw [cubeSlots_succ]
+  simp [List.set_append, cubeSlots_length, Elem.times, npOnes, hnp]
+
+theorem firstOnly_eq (n : Nat) (h : n > 0) : (List.replicate n false).set 0 true = firstOnly n := by
+  cases n with
+  | zero => omega
+  | succ m =>
+    simp only [firstOnly, List.replicate_succ, List.set_cons_zero]
+    apply List.ext_getElem
+    · simp
+    · intro i h1 h2
+      cases i <;> simp
+
+theorem everyOther_eq (n : Nat) : setEveryOther (npZerosBool n) = everyOther n := by
+  simp only [setEveryOther, npZerosBool, everyOther, List.length_replicate]
+  apply List.map_congr_left
+  intro i hi
+  have hlt := List.mem_range.1 hi
+  by_cases h : i % 2 == 0 <;> simp [h, hlt, List.getD_eq_getElem?_getD, List.getElem?_replicate]
+
+def outPM (a : Acc) : Dict PropOut × List PropMeta := (a.props, a.metas)
+
+theorem blockVl_eq (ok : Bool) (n : Nat) (vl : Bool) (a : Acc) :
+    Gen.MockData.blockIncludeVarlength ok n vl a.props a.metas =
+      if vl && n == 0 && !ok then .other "IndexError" else .ok (outPM (withVarLength vl n a)) := by
+  unfold Gen.MockData.blockIncludeVarlength
+  cases vl
+  · simp [withVarLength, outPM]
+  · have hloop : forIn (List.range n) (npEmptyObj n) (fun node __s =>
+          have values := __s;
+          have shape := List.replicate 3 node;
+          do
+          let t1 ← setItemObj values node ((npOnes shape "uint64").times node)
+          have values : Arr := t1
+          pure (ForInStep.yield values)) = .ok (vlState n n) := by
+      rw [List.range_eq_range']
+      have h0 : npEmptyObj n = vlState n 0 := by simp [npEmptyObj, vlState, cubeSlots]
+      rw [h0]
+      apply forIn_cubes n _ _ n 0 (by omega)
+      intro k hk
+      simp [vl_step n k hk]
+    simp only [Bool.true_and]
+    by_cases hn : n = 0
+    · subst hn
+      cases ok <;> simp [npEmptyObj, mkPropDict, cubeSlots, npZerosBool, createPropsMetadata, withVarLength, outPM,
+        Acc.push, varLengthTriple, varLengthProp, firstOnly]
+    · have hpos : n > 0 := by omega
+      simp only [hloop]
+      simp [hn, hpos, setItemMask, npZerosBool, firstOnly_eq n hpos, mkPropDict, vlState, createPropsMetadata, elemDtype,
+        withVarLength, outPM, Acc.push, varLengthTriple, varLengthProp]
+
+
+/-! ### the sparse paragraph -/
+theorem mask_eq (j : Nat) :
+    (if decide (j > 0) = true then setEveryOther (npZerosBool j) else npZerosBool j) = everyOther j := by
+  by_cases h : j > 0
+  · simp [h, everyOther_eq]
+  · have : j = 0 := by omega
+    subst this; simp [npZerosBool, everyOther]
+
+theorem blockMs_eq (ok : Bool) (n : Nat) (ms : Bool) (a e : Acc) (edges : EdgeArr) (k : Nat)
+    (hk : edges.shape = [k, 2]) :
+    Gen.MockData.blockIncludeMissing ok n ms a.props a.metas edges e.props e.metas =
+      .ok ((withSparse ms n a).props, (withSparse ms k e).props, (withSparse ms n a).metas,
+           (withSparse ms k e).metas) := by
+  unfold Gen.MockData.blockIncludeMissing
+  cases ms
+  · simp [withSparse]
+  · have hl : EdgeArr.pyLen edges = .ok k := by simp [EdgeArr.pyLen, hk]
+    have hnp : npName "float64" = "float64" := by decide
+    have e1 := everyOther_eq
+    have z0 : npZerosBool 0 = everyOther 0 := rfl
+    cases n <;> cases k <;>
+      simp [hl, e1, z0, hnp, npArange, natInts, mkPropDict, createPropsMetadata, withSparse, Acc.push,
+        sparseTriple, sparseProp, sparseMeta]
+
+/-! ### the extra-property paragraphs -/
+def stepSpec (len : Nat) (kv : PyKey × Req) (props : Dict PropOut) (metas : List PropMeta) :
+    Outcome (ForInStep (Dict PropOut × List PropMeta)) :=
+  match stepOut len kv with
+  | .ok t => .ok (.yield (dictSet props t.1 t.2.1, metas ++ [(t.1, t.2.2)]))
+  | .valueError => .valueError
+  | .other n => .other n
+
+def outAcc : Outcome Acc → Outcome (Dict PropOut × List PropMeta)
+  | .ok a => .ok (a.props, a.metas)
+  | .valueError => .valueError
+  | .other n => .other n
+
+theorem forIn_extras (len : Nat) (body : PyKey × Req → Dict PropOut × List PropMeta → Outcome (ForInStep (Dict PropOut × List PropMeta)))
+    (hstep : ∀ kv props metas, body kv (props, metas) = stepSpec len kv props metas) :
+    ∀ items props metas, forIn items (props, metas) body = outAcc (extraLoop len ⟨props, metas⟩ items) := by
+  intro items
+  induction items with
+  | nil => intro props metas; simp [extraLoop, outAcc]
+  | cons it rest ih =>
+    intro props metas
+    rw [List.forIn_cons, hstep]
+    simp only [stepSpec, extraLoop, extraStep]
+    cases hs : stepOut len it with
+    | ok t => simp only [ok_bind]; rw [ih]; rfl
+    | valueError => simp [outAcc]
+    | other n => simp [outAcc]
+
+theorem dtypeStr_eq : Gen.MockData.DTypeStr = dtypeStrs := by decide
+
+theorem blockXn_eq (ok : Bool) (n : Nat) (x : Extra) (a : Acc) :
+    Gen.MockData.blockExtraNodeProps ok n x a.props a.metas = outAcc (extras n a x) := by
+  obtain ⟨props0, metas0⟩ := a
+  unfold Gen.MockData.blockExtraNodeProps
+  cases x with
+  | none => simp [Extra.isNone, extras, outAcc]
+  | notDict => simp [Extra.isNone, Extra.isDict, raiseValueError, extras, outAcc]
+  | dict items =>
+    simp only [Extra.isNone, Extra.isDict, extraItems, ok_bind, Bool.not_false, Bool.not_true, if_true,
+      Bool.false_eq_true, if_false, pure_eq, extras]
+    show (forIn items (props0, metas0) _ >>= _) = _
+    rw [forIn_extras n]
+    · cases extraLoop n ⟨props0, metas0⟩ items <;> simp [outAcc]
+    · intro kv props metas
+      obtain ⟨k, r⟩ := kv
+      cases k with
+      | none => simp [stepSpec, stepOut, narrowStr, raiseValueError]
+      | some k =>
+        cases r with
+        | auto d =>
+          by_cases hd : d ∈ dtypeStrs
+          · by_cases h1 : d = "str"
+            · subst h1
+              have hs : "str" ∈ dtypeStrs := by decide
+              simp [stepSpec, stepOut, narrowStr, Req.isStr, Req.str, dtypeStr_eq, hs, autoValues, npArrayStrs,
+                mkPropDict, dictGetItem, dictGet_dictSet, createPropsMetadata]
+            · by_cases h2 : (d = "int" ∨ d = "int8" ∨ d = "uint8" ∨ d = "int16" ∨ d = "uint16")
+              · simp [stepSpec, stepOut, narrowStr, Req.isStr, Req.str, dtypeStr_eq, hd, h1, h2, autoValues, intStrs, npArange, natInts,
+                  mkPropDict, dictGetItem, dictGet_dictSet, createPropsMetadata]
+              · simp [stepSpec, stepOut, narrowStr, Req.isStr, Req.str, dtypeStr_eq, hd, h1, h2, autoValues, intStrs, npLinspace,
+                  mkPropDict, dictGetItem, dictGet_dictSet, createPropsMetadata]
+          · simp [stepSpec, stepOut, narrowStr, Req.isStr, Req.str, dtypeStr_eq, hd, raiseValueError]
+        | arr d l tag =>
+          by_cases hl : l = n
+          · simp [stepSpec, stepOut, narrowStr, Req.isStr, Req.isNdarray, Req.pyLen, Req.arr', hl, mkPropDict, dictGetItem,
+              dictGet_dictSet, createPropsMetadata]
+          · simp [stepSpec, stepOut, narrowStr, Req.isStr, Req.isNdarray, Req.pyLen, hl, raiseValueError]
+        | bad => simp [stepSpec, stepOut, narrowStr, Req.isStr, Req.isNdarray, raiseValueError]
+
+theorem blockXe_eq (ok : Bool) (n : Nat) (x : Extra) (edges : EdgeArr) (a : Acc) (hk : edges.shape = [n, 2]) :
+    Gen.MockData.blockExtraEdgeProps ok x edges a.props a.metas = outAcc (extras n a x) := by
+  have hpl : EdgeArr.pyLen edges = .ok n := by simp [EdgeArr.pyLen, hk]
+  obtain ⟨props0, metas0⟩ := a
+  unfold Gen.MockData.blockExtraEdgeProps
+  cases x with
+  | none => simp [Extra.isNone, extras, outAcc]
+  | notDict => simp [Extra.isNone, Extra.isDict, raiseValueError, extras, outAcc]
+  | dict items =>
+    simp only [Extra.isNone, Extra.isDict, extraItems, ok_bind, Bool.not_false, Bool.not_true, if_true,
+      Bool.false_eq_true, if_false, pure_eq, extras]
+    show (forIn items (props0, metas0) _ >>= _) = _
+    rw [forIn_extras n]
+    · cases extraLoop n ⟨props0, metas0⟩ items <;> simp [outAcc]
+    · intro kv props metas
+      obtain ⟨k, r⟩ := kv
+      cases k with
+      | none => simp [hpl, stepSpec, stepOut, narrowStr, raiseValueError]
+      | some k =>
+        cases r with
+        | auto d =>
+          by_cases hd : d ∈ dtypeStrs
+          · by_cases h1 : d = "str"
+            · subst h1
+              have hs : "str" ∈ dtypeStrs := by decide
+              simp [hpl, stepSpec, stepOut, narrowStr, Req.isStr, Req.str, dtypeStr_eq, hs, autoValues, npArrayStrs,
+                mkPropDict, dictGetItem, dictGet_dictSet, createPropsMetadata]
+            · by_cases h2 : (d = "int" ∨ d = "int8" ∨ d = "uint8" ∨ d = "int16" ∨ d = "uint16")
+              · simp [hpl, stepSpec, stepOut, narrowStr, Req.isStr, Req.str, dtypeStr_eq, hd, h1, h2, autoValues, intStrs, npArange, natInts,
+                  mkPropDict, dictGetItem, dictGet_dictSet, createPropsMetadata]
+              · simp [hpl, stepSpec, stepOut, narrowStr, Req.isStr, Req.str, dtypeStr_eq, hd, h1, h2, autoValues, intStrs, npLinspace,
+                  mkPropDict, dictGetItem, dictGet_dictSet, createPropsMetadata]
+          · simp [hpl, stepSpec, stepOut, narrowStr, Req.isStr, Req.str, dtypeStr_eq, hd, raiseValueError]
+        | arr d l tag =>
+          by_cases hl : l = n
+          · simp [hpl, stepSpec, stepOut, narrowStr, Req.isStr, Req.isNdarray, Req.pyLen, Req.arr', hl, mkPropDict, dictGetItem,
+              dictGet_dictSet, createPropsMetadata]
+          · simp [hpl, stepSpec, stepOut, narrowStr, Req.isStr, Req.isNdarray, Req.pyLen, hl, raiseValueError]
+        | bad => simp [hpl, stepSpec, stepOut, narrowStr, Req.isStr, Req.isNdarray, raiseValueError]
+
+
 def genDummy (ok : Bool) (p : Params) : Outcome Geff :=
   Gen.MockData.createDummyInMemGeff ok p.idDtype ⟨p.posDtype, p.timeDtype⟩ p.directed p.numNodes p.numEdges
     p.extraNode p.extraEdge p.t p.z p.y p.x p.vl p.ms
+
+theorem dummy_eq (ok : Bool) (p : Params) : genDummy ok p = createDummyInMemGeff ok p := by
+  obtain ⟨idD, tD, pD, dir, n, m, xn, xe, t, z, y, x, vl, ms⟩ := p
+  unfold genDummy Gen.MockData.createDummyInMemGeff createDummyInMemGeff
+  dsimp only
+  have hax : axesAcc ⟨idD, tD, pD, dir, n, m, xn, xe, t, z, y, x, vl, ms⟩ =
+      axStep n x "x" "space" "nanometer" pD (.linspace "1.0" "0.1" n)
+        (axStep n y "y" "space" "nanometer" pD (.linspace "100.0" "500.0" n)
+          (axStep n z "z" "space" "nanometer" pD (.linspace "0.5" "0.1" n)
+            (axStep n t "t" "time" "second" tD (.ints (tValues n)) (({} : Acc), [])))) := rfl
+  have hT : Gen.MockData.blockIncludeT ok ⟨pD, tD⟩ n t [] [] [] =
+      .ok (axOut (axStep n t "t" "time" "second" tD (.ints (tValues n)) (({} : Acc), []))) :=
+    blockT_eq ok ⟨pD, tD⟩ n t (({} : Acc), [])
+  rw [hax, hT]; simp only [ok_bind, axOut]
+  rw [blockZ_eq]; simp only [ok_bind, axOut]
+  rw [blockY_eq]; simp only [ok_bind, axOut]
+  rw [blockX_eq]; simp only [ok_bind, axOut]
+  generalize axStep n x "x" "space" "nanometer" pD (.linspace "1.0" "0.1" n)
+        (axStep n y "y" "space" "nanometer" pD (.linspace "100.0" "500.0" n)
+          (axStep n z "z" "space" "nanometer" pD (.linspace "0.5" "0.1" n)
+            (axStep n t "t" "time" "second" tD (.ints (tValues n)) (({} : Acc), [])))) = s4
+  cases hg : Gen.MockEdges.gen dir (n : Int) (m : Int) with
+  | error e => simp [castEdges]
+  | ok es =>
+    simp only [castEdges, ok_bind]
+    rw [blockEdges_eq]; simp only [ok_bind]
+    rw [blockXn_eq]
+    cases hxn : extras n s4.1 xn with
+    | valueError => simp [outAcc]
+    | other e => simp [outAcc]
+    | ok na =>
+      simp only [outAcc, ok_bind]
+      have hXe : Gen.MockData.blockExtraEdgeProps ok xe ⟨npName idD, es, [es.length, 2]⟩ [] [] =
+          outAcc (extras es.length {} xe) := blockXe_eq ok es.length xe _ ({} : Acc) rfl
+      rw [hXe]
+      cases hxe : extras es.length {} xe with
+      | valueError => simp [outAcc]
+      | other e => simp [outAcc]
+      | ok ea =>
+        simp only [outAcc, ok_bind]
+        rw [blockVl_eq]
+        by_cases hc : (vl && n == 0 && !ok) = true
+        · simp [hc]
+        · simp only [hc, Bool.false_eq_true, if_false, ok_bind, outPM]
+          rw [blockMs_eq ok n ms _ _ _ es.length rfl]
+          simp [createOrUpdateMetadata, addOrUpdatePropsMetadata, mkInMemoryGeff, npArange, assemble, metaDict]
+
 
 def genMock (ok : Bool) (p : Params) : Outcome (MemStore × Geff) :=
   Gen.MockData.createMockGeff ok p.idDtype ⟨p.posDtype, p.timeDtype⟩ p.directed p.numNodes p.numEdges
